@@ -24,7 +24,8 @@ REQUIRED_FEATURES = ["dump:region", "dump:region2", "dump:fill-lower", "dump:joi
                      "dump:one-based-ids", "dump:one-based-ids-alone", "dump:one-based-starts", "dump:header",
                      "dump:table-bins", "dump:table-chroms", "roundtrip:coo", "roundtrip:bg2", "roundtrip:one-based",
                      "roundtrip:square", "layout:load-nonmonotone", "layout:cload-pairs-nonmonotone", "via:subprocess",
-                     "bins-arg:chromsizes:binsize", "dump:fill-lower-straddling", "roundtrip:duplex"]
+                     "bins-arg:chromsizes:binsize", "dump:fill-lower-straddling", "roundtrip:duplex",
+                     "layout:load-square-unsorted-records"]
 
 
 def plan(tier, seed):
@@ -361,7 +362,7 @@ def roundtrip_case(ctx, cid, rng, idx):
                 continue
             keys, cols = read_pixels_raw(out_uri, "/", ("count",))
             got = dict(zip(keys, cols["count"].tolist()))
-            c.check(got == P, f"roundtrip-differs:{fmt}:{'one-based' if one else 'zero-based'}",
+            c.check(got == P and list(keys) == sorted(P), f"roundtrip-differs:{fmt}:{'one-based' if one else 'zero-based'}",
                     f"dump ({'one' if one else 'zero'}-based) -> load -f {fmt} does not reproduce the pixel table",
                     lambda: {"got": sorted(got.items())[:10], "want": sorted(P.items())[:10]})
             tabs = ("chroms", "bins")
@@ -386,6 +387,7 @@ def layout_case(ctx, cid, rng, idx):
     bl = gen.bt_bins_list(bt)
     kind = ["coo", "bg2", "pairs"][idx % 3]
     ncols = int(rng.integers(8, 12))
+    square = False
     with ctx.case(cid, {"bt": bt, "kind": kind}) as c:
         if kind == "pairs":
             fields = ["chrom1", "pos1", "chrom2", "pos2", "score"]
@@ -408,12 +410,13 @@ def layout_case(ctx, cid, rng, idx):
         else:
             fields = (["bin1_id", "bin2_id"] if kind == "coo" else ["chrom1", "start1", "end1", "chrom2", "start2", "end2"]) \
                 + ["count", "score"]
-            P = gen.gen_pixels(rng, n, True, "sparse70") or {(0, 0): 3}
+            square = bool(rng.random() < 0.4)          # --no-symmetric-upper: both triangles are data, kept as given
+            P = gen.gen_pixels(rng, n, not square, "sparse70") or {(0, 0): 3}
             E = {k: float(int(rng.integers(0, 80))) / 8 for k in P}
             want, wsc = P, E
             values = []
             for (i, j) in P:
-                a, b = (i, j) if rng.random() < 0.5 else (j, i)     # orientation random: reflect restores it
+                a, b = (i, j) if square or rng.random() < 0.5 else (j, i)     # orientation random: reflect restores it
                 pos = [a, b] if kind == "coo" else [bl[a][0], bl[a][1], bl[a][2], bl[b][0], bl[b][1], bl[b][2]]
                 values.append(pos + [P[(i, j)], E[(i, j)]])
         for rep in range(4):
@@ -439,7 +442,10 @@ def layout_case(ctx, cid, rng, idx):
                         str(int([2, 10**6][int(rng.integers(2))])), bed, txt, out_uri]
                 c.feature("layout:cload-pairs-nonmonotone" if not monotone else "layout:cload-pairs-monotone")
             else:
-                args = ["load", "-f", kind, "--chunksize", str(int([2, 10**6][int(rng.integers(2))]))]
+                args = ["load", "-f", kind, "--chunksize", str(int([2, 3, 5, 11, 10**6][int(rng.integers(5))]))]
+                if square:
+                    args.append("--no-symmetric-upper")
+                    c.feature("layout:load-square-unsorted-records")
                 for f_ in fields:
                     spec = f"{f_}={fn[f_]}" + (":dtype=float" if f_ == "score" else "")
                     args += ["--field", spec]
@@ -455,6 +461,9 @@ def layout_case(ctx, cid, rng, idx):
                 continue
             keys, cols = read_pixels_raw(out_uri, "/", ("count", "score"))
             got = dict(zip(keys, cols["count"].tolist()))
+            c.check(list(keys) == sorted(want), f"layout-pixel-table-not-the-sorted-record-set:{kind}",
+                    f"`cooler {shown}`: stored pixel rows are not the sorted set of input pixels (the library's create/"
+                    f"matrix queries rely on that order)", lambda: {"got_keys": list(keys)[:12], "want_keys": sorted(want)[:12]})
             c.check(got == want, f"layout-counts-differ:{kind}:{key_m}",
                     f"`cooler {shown}` does not reproduce the library result (field numbers {fn})",
                     lambda: {"got": sorted(got.items())[:10], "want": sorted(want.items())[:10]})
